@@ -84,6 +84,9 @@ type sessionInfo struct {
 	// result, so it cannot overtake it.
 	firing      bool
 	pendingLate bool
+	// older chains the previously fired sessions of the same key that are still
+	// inside their allowance (triggeredSessions holds the most recent one).
+	older *sessionInfo
 }
 
 // session stores data and state for a session
@@ -485,12 +488,14 @@ func (sw *SessionWindow) flushPendingLateUpdates() {
 	sw.mu.Lock()
 	defer sw.mu.Unlock()
 	var pending []*sessionInfo
-	for _, info := range sw.triggeredSessions {
-		if info.firing {
-			info.firing = false
-			if info.pendingLate {
-				info.pendingLate = false
-				pending = append(pending, info)
+	for _, head := range sw.triggeredSessions {
+		for info := head; info != nil; info = info.older {
+			if info.firing {
+				info.firing = false
+				if info.pendingLate {
+					info.pendingLate = false
+					pending = append(pending, info)
+				}
 			}
 		}
 	}
@@ -526,6 +531,7 @@ func (sw *SessionWindow) collectExpiredSessions(currentTime time.Time) [][]types
 						session:   s,
 						closeTime: closeTime,
 						firing:    true,
+						older:     sw.triggeredSessions[key],
 					}
 				}
 			}
@@ -711,8 +717,11 @@ func (sw *SessionWindow) handleLateData(row types.Row) bool {
 	// all triggered sessions put the event into whichever session of another key
 	// happened to cover its timestamp.
 	key := extractSessionCompositeKey(row.Data, sw.config.GroupByKeys)
-	info, ok := sw.triggeredSessions[key]
-	if !ok || !info.session.slot.Contains(row.Timestamp) {
+	info := sw.triggeredSessions[key]
+	for info != nil && !info.session.slot.Contains(row.Timestamp) {
+		info = info.older // an earlier session of the key may still be open
+	}
+	if info == nil {
 		return false
 	}
 	// Append the late event before re-emitting so the update includes it. It
@@ -758,10 +767,27 @@ func (sw *SessionWindow) triggerLateUpdateLocked(s *session) {
 
 // closeExpiredSessions closes sessions that have exceeded allowedLateness
 func (sw *SessionWindow) closeExpiredSessions(watermarkTime time.Time) {
-	for key, info := range sw.triggeredSessions {
-		if !watermarkTime.Before(info.closeTime) {
-			// Session has expired, remove it
+	for key, head := range sw.triggeredSessions {
+		// Drop every session of the chain whose allowance is over.
+		var kept, last *sessionInfo
+		for info := head; info != nil; info = info.older {
+			if !watermarkTime.Before(info.closeTime) {
+				continue // Session has expired, remove it
+			}
+			if last == nil {
+				kept = info
+			} else {
+				last.older = info
+			}
+			last = info
+		}
+		if last != nil {
+			last.older = nil
+		}
+		if kept == nil {
 			delete(sw.triggeredSessions, key)
+		} else {
+			sw.triggeredSessions[key] = kept
 		}
 	}
 }
